@@ -27,7 +27,10 @@ RULE = ('one program per identity and operand set, both sides built over the sam
         'stack | concat of unsqueezed; unbind of stack | the inputs; flatten | reshape; movedim adjacent | transpose. Values and, after '
         'backward with the same non-uniform upstream gradient, the gradients of every leaf are compared between the two sides (on the '
         'implementation and on the model) and between model and implementation line by line. Identities through the 1e-12 guard use '
-        'the tolerance 1e-6. Non-trivial: every case (each has a differentiable leaf and > 1 element).')
+        'the tolerance 1e-6. Module level (seq, neuronmod): the real nn.Sequential / nn.Neuron / nn.Linear objects (members repeated, '
+        'nested, Flatten / BatchNorm1d / Dropout members, ~8 % malformed feature counts) against the model\'s sequentialForward / '
+        'Linear.forward / Neuron.forward run by the driver (`mf` lines): outputs, rejections, batch-norm state and draws consumed. '
+        'Non-trivial: every case (each has a differentiable leaf and > 1 element).')
 EXHAUSTIVE = {'quick': False, 'thorough': False}
 ASSUMPTIONS = ['float64; identities that pass through log(x + 1e-12) hold up to that guard (tolerance 1e-6 on moderate values)']
 TRUSTED_BASE = ['harness/tprog.py']
@@ -54,6 +57,106 @@ class B:
         self.lines.append(f't sop {kind} {a} {b}')
         self.n += hidden + 1
         return self.n - 1
+
+
+class MB:
+    """module-program builder: `mf` lines (lean/SynapModel/Drv/ModuleFwd.lean), one module object per creating line"""
+    def __init__(self):
+        self.lines, self.n, self.kids = [], 0, {}
+
+    def new(self, line, kids=()):
+        self.lines.append('mf ' + line); self.n += 1; self.kids[self.n - 1] = list(kids)
+        return self.n - 1
+
+    def step(self, line):
+        self.lines.append('mf ' + line)
+        return len(self.lines) - 1
+
+    def linear(self, i, o, w, bias): return self.new(f"linear {i} {o} {int(bias is not None)} {show_floats(w)} {show_floats(bias or [])}")
+    def neuron(self, i, w, bias): return self.new(f"neuron {i} {int(bias is not None)} {show_floats(w)} {show_floats(bias or [])}")
+    def act(self, kind): return self.new(f'act {kind}')
+    def flatten(self, s0, e0): return self.new(f'flatten {s0} {e0}')
+    def bn(self, C, mo, eps, affine, track, g, bt):
+        return self.new(f"bn {C} {common.show_opt(lambda v: str(fbits(v)), mo)} {fbits(eps)} {int(affine)} {int(track)} "
+                        f"{common.show_opt(show_floats, g)} {common.show_opt(show_floats, bt)}")
+    def dropout(self, p, draws): return self.new(f'dropout {fbits(p)} {show_floats(draws)}')
+    def seq(self, ids, named=False):
+        if named and ids:
+            return self.new('seqd ' + ','.join(f'layer{j}:{k}' for j, k in enumerate(ids)), ids)
+        return self.new('seq ' + show_ints(ids), ids)
+    def fwd(self, m, sh, data): return self.step(f'fwd {m} {show_ints(sh)} {show_floats(data)}')
+
+    def calls(self, m, leaf):
+        """how often one forward of module m calls the leaf object"""
+        return int(m == leaf) + sum(self.calls(k, leaf) for k in self.kids[m])
+
+
+def gen_mf_seq(rng, mb, n, d, pool_ids):
+    """a second Sequential over the pool of the composition program plus the members a composition program cannot spell: Flatten in
+    front of a rank-3 batch, BatchNorm1d (training mode: running statistics and the batch counter are state every call advances),
+    Dropout (consumes the next draws at every call), nested Sequentials — members repeated inside and across the nesting levels.
+    ~8 % malformed: a feature count that does not fit (Linear asserts), a rank-1 batch, a single value per channel for BatchNorm."""
+    V = lambda sh, kind='any': gen_ops.vals(rng, sh, kind)
+    bad = rng.pick(['lin_in', 'x_feat', 'rank1', 'bn_single']) if rng.chance(.08) else None
+    members = list(pool_ids)
+    if rng.chance(.5) or not members or bad in ('x_feat', 'rank1'):
+        members.append(mb.linear(d, d, V((d, d)), V((d,)) if rng.chance(.6) else None))
+    first_lin = members[-1]
+    stateful = []
+    bn_args = lambda C: (C, rng.pick([None, .1, .5, 1.0]), rng.pick([1e-5, 1e-3]), *rng.pick([(True, True), (True, True), (False, True), (True, False)]))
+    if rng.chance(.6) or bad == 'bn_single':
+        C, mo, eps, aff, track = bn_args(d)
+        k = mb.bn(C, mo, eps, aff, track, V((C,), 'pos') if aff and rng.chance(.7) else None, V((C,)) if aff and rng.chance(.7) else None)
+        members.append(k); stateful.append(k)
+    has_bn = bool(stateful)
+    if bad == 'bn_single': n = 1
+    elif has_bn: n = max(n, 2)
+    drop = None
+    if rng.chance(.5):
+        drop = len(mb.lines)                      # the line is written once the number of draws is known
+        mb.new('dropout ?')
+        members.append(mb.n - 1); stateful.append(mb.n - 1)
+        dropid = mb.n - 1
+    if rng.chance(.5):                            # nested Sequential over members of the pool (shared with the outer one)
+        inner = mb.seq([rng.pick(members) for _ in range(rng.randint(0, 3))], rng.chance(.3))
+        members.append(inner)
+        if rng.chance(.4):
+            members.append(mb.seq([inner, rng.pick(members), inner][:rng.randint(2, 3)]))
+    order = [rng.pick(members) for _ in range(rng.randint(1, 5))]
+    if rng.chance(.6):                            # the same object at two positions
+        order.insert(rng.randrange(len(order) + 1), rng.pick(order))
+    for k in stateful:                            # a stateful member is (nearly always) reached by the forward pass
+        if not any(mb.calls(m, k) for m in order) and rng.chance(.85): order.insert(rng.randrange(len(order) + 1), k)
+    xs = (n, d)
+    if bad in ('x_feat', 'rank1'):
+        order.insert(0, first_lin)
+        xs = (n, d + rng.pick([1, -1] if d > 1 else [1])) if bad == 'x_feat' else (d,)
+    elif bad == 'lin_in':
+        order.insert(rng.randrange(len(order) + 1), mb.linear(d + 1, d, V((d, d + 1)), V((d,)) if rng.chance(.5) else None))
+    elif bad == 'bn_single':
+        if stateful[0] not in order: order.insert(rng.randrange(len(order) + 1), stateful[0])
+    elif rng.chance(.4):                          # rank-3 batch: (BatchNorm1d over (N, C, L),) Flatten, then the (N, d) members
+        a = rng.pick([q for q in (1, 2, 3) if d % q == 0])
+        xs = (n, a, d // a)
+        fl = mb.flatten(*rng.pick([(1, -1), (1, 2), (-2, -1), (-2, 2)]))
+        front = [fl]
+        if rng.chance(.4) and n * (d // a) > 1:
+            C, mo, eps, aff, track = bn_args(a)
+            k = mb.bn(C, mo, eps, aff, track, V((C,), 'pos') if aff else None, V((C,)) if aff else None)
+            front = [k, fl]; stateful.append(k)
+        order = front + order
+    outer = mb.seq(order, rng.chance(.3))
+    nfwd = 1 if bad else rng.pick([1, 1, 2, 3])
+    evalat = rng.randrange(1, nfwd) if nfwd > 1 and rng.chance(.6) else None
+    if drop is not None:
+        per = mb.calls(outer, dropid) * int(np.prod(xs))
+        mb.lines[drop] = f"mf dropout {fbits(rng.pick([0.0, 0.25, 0.5, 0.5, 0.75, 1.0]))} {show_floats([rng.random() for _ in range(per * nfwd)])}"
+    for j in range(nfwd):
+        if j == evalat: mb.step(f'train {outer} 0')          # eval(): recursive over the nested members
+        mb.fwd(outer, xs, V(xs))
+        if not bad:
+            for k in stateful: mb.step(f'state {k}')
+    return bad
 
 
 def finish(b, lhs, rhs, rng, tol=1e-9):
@@ -234,6 +337,22 @@ def gen_identity(rng, which, big=False):
             bb = b.leaf((1,), V((1,))) if hb else None
             r = b.op('linear', [x, w] + ([bb] if hb else []), int(hb))
             spec = {'kind': 'neuron', 'x': x, 'w': w, 'b': bb, 'in': i}
+            # the same objects for the model: Neuron(in) and Linear(in, 1) with the same values, their attributes and outputs
+            mb = MB()
+            data = lambda k: common.parse_floats(b.lines[k].split(' ')[5])
+            bv = data(bb) if hb else None
+            ne = mb.neuron(i, data(w), bv); li = mb.linear(i, 1, data(w), bv)
+            rel = {'same': [(mb.step(f'attrs {ne}'), mb.step(f'attrs {li}')), (mb.fwd(ne, (n, i), data(x)), mb.fwd(li, (n, i), data(x)))]}
+            rel['val'] = rel['same'][1][0]
+            for _ in range(rng.randint(0, 2)):            # further batches through the same two objects
+                n2 = rng.randint(1, 4); xv = V((n2, i))
+                rel['same'].append((mb.fwd(ne, (n2, i), xv), mb.fwd(li, (n2, i), xv)))
+            rel['bad'] = None
+            if rng.chance(.08):                           # malformed: feature count / rank of the batch
+                rel['bad'] = rng.pick(['x_feat', 'rank1'])
+                sh_ = (n, i + rng.pick([1, -1] if i > 1 else [1])) if rel['bad'] == 'x_feat' else (i,)
+                xv = V(sh_)
+                rel['same'].append((mb.fwd(ne, sh_, xv), mb.fwd(li, sh_, xv)))
         else:
             d = rng.randint(1, 3)
             x = b.leaf((n, d), V((n, d)))
@@ -256,9 +375,21 @@ def gen_identity(rng, which, big=False):
                     cur = b.op(m['kind'], [cur])
             r = cur if order else b.op('clone', [x])
             spec = {'kind': 'seq', 'x': x, 'pool': pool, 'order': order, 'dict': rng.chance(.3), 'd': d}
+            # the same Sequential for the model (`sequentialForward` over the same member objects) ...
+            mb = MB()
+            data = lambda k: common.parse_floats(b.lines[k].split(' ')[5])
+            ids = [mb.linear(d, d, data(m['w']), data(m['b']) if m['b'] is not None else None) if m['kind'] == 'linear' else mb.act(m['kind'])
+                   for m in pool]
+            sq = mb.seq([ids[k] for k in order], spec['dict'])
+            rel = {'same': [], 'val': mb.fwd(sq, (n, d), data(x))}
+            # ... and a second one with stateful / shape-changing / nested members
+            rel['bad'] = gen_mf_seq(rng, mb, n, d, ids)
         c = finish(b, r, r, rng)
         c['module'] = spec
         c['leaves'] = list(b.leaves)
+        c['nt'] = len(c['lines'])                 # the tensor program; the module program follows
+        c['mfrel'] = rel
+        c['lines'] = c['lines'] + mb.lines
         return c
     raise KeyError(which)
 
@@ -331,7 +462,7 @@ def cases(rng, tier):
     out = []
     reps = 8 if tier == 'quick' else 300
     for w in IDS:
-        for _ in range(reps * (3 if w in ('ce', 'logsoftmax', 'bcel') else 1)):      # the numerically delicate identities get more operand sets
+        for _ in range(reps * (3 if w in ('ce', 'logsoftmax', 'bcel', 'seq', 'neuronmod') else 1)):      # the numerically delicate identities and the module programs get more operand sets
             c = gen_identity(rng, w, big=True) if (w in ('maxpool', 'avgpool') and _ == 0) else gen_identity(rng, w)
             c['id'] = w
             c['desc'] = w + ': ' + ' ; '.join(c['lines'])[:500]
@@ -339,8 +470,62 @@ def cases(rng, tier):
     return out
 
 
+def _split(c):
+    nt = c.get('nt', len(c['lines']))
+    return c['lines'][:nt], c['lines'][nt:]
+
+
 def impl(c):
-    return tprog.run_program(c['lines'])
+    tl, ml = _split(c)
+    return tprog.run_program(tl) + (tprog.run_mf(ml) if ml else [])
+
+
+class _Manual:
+    """what the documentation says a Sequential is: its members applied left to right, each to the previous output"""
+    def __init__(self, ms): self.ms = ms
+    def __call__(self, x):
+        for m in self.ms: x = m(x)
+        return x
+    def train(self):
+        for m in self.ms: m.train()
+        return self
+    def eval(self):
+        for m in self.ms: m.eval()
+        return self
+
+
+class ManualImpl(tprog.ModImpl):
+    """the right-hand sides on the real code: `seq` = manual left-to-right application of the member objects, `neuron` = Linear(in, 1)"""
+    def run(self, line):
+        t = line.split(' ')
+        if t[1] == 'seq': return self._new(_Manual([self.ms[k] for k in common.parse_ints(t[2])]))
+        if t[1] == 'seqd': return self._new(_Manual([self.ms[int(e.split(':')[1])] for e in t[2].split(',')]))
+        if t[1] == 'neuron': return super().run(f'mf linear {t[2]} 1 {t[3]} {t[4]} {t[5]}')
+        return super().run(line)
+
+
+def _mf_relations(c, out, tout, name):
+    """within ONE side (model or implementation): Neuron vs Linear(in, 1) answers, module output vs the composition program's value"""
+    rel, nt = c['mfrel'], c['nt']
+    for a, b_ in rel['same']:
+        if not tprog.close_tokens(out[a], out[b_], 1e-12):
+            return (f"{name}: {c['lines'][nt + a][:60]} vs {c['lines'][nt + b_][:60]}", out[a][:200], out[b_][:200])
+    vline = [j for j, l in enumerate(c['lines'][:nt]) if l.startswith('t val')][0]
+    if not tprog.close_arr(out[rel['val']], tout[vline], 1e-9):
+        return (f"{name}: module forward {c['lines'][nt + rel['val']][:60]} vs composition program", out[rel['val']][:200], tout[vline][:200])
+    return None
+
+
+def _mf_oracle(c):
+    """real code only: the Sequential / Neuron objects against manual application / Linear(in, 1) over the same lines"""
+    tl, ml = _split(c)
+    real = tprog.run_mf(ml)
+    im = ManualImpl()
+    man = [im.exec(l) for l in ml]
+    for l, r, m in zip(ml, real, man):
+        if not tprog.close_tokens(r, m, 1e-12):
+            return (f"{l[:80]}: {'nn.Neuron vs nn.Linear(in, 1)' if c['id'] == 'neuronmod' else 'nn.Sequential vs its members applied left to right'}", r[:200], m[:200])
+    return _mf_relations(c, real, tprog.run_program(tl), 'implementation')
 
 
 def _pairs_ok(c, out):
@@ -351,7 +536,17 @@ def _pairs_ok(c, out):
 
 
 def compare(c, mo, io):
-    diffs = tprog.diff_program(c['lines'], mo, io, max(c['tol'], 1e-9))
+    nt = c.get('nt', len(c['lines']))
+    diffs = tprog.diff_program(c['lines'][:nt], mo[:nt], io[:nt], max(c['tol'], 1e-9))
+    # the module program: real nn objects vs the model's `Linear.forward` / `Neuron.forward` / `sequentialForward`, line by line
+    diffs += [(c['lines'][k][:120], mo[k][:300], str(io[k])[:300]) for k in range(nt, len(c['lines']))
+              if not tprog.close_tokens(mo[k], str(io[k]), 1e-9)][:3]
+    if not diffs and 'mfrel' in c:
+        for name, out in (('implementation', io), ('model', mo)):
+            bad = _mf_relations(c, out[nt:], out[:nt], name)
+            if bad: diffs.append(bad)
+        if c['mfrel']['bad'] and not any(o == 'rejected' for o in io[nt:]):
+            diffs.append(('malformed module program ' + c['mfrel']['bad'], 'rejected', 'accepted'))
     if not diffs:
         for name, out in (('implementation', io), ('model', mo)):
             bad = _pairs_ok(c, out)
@@ -377,10 +572,12 @@ def distribution(cases):
 
 
 def oracle(c):
-    io = tprog.run_program(c['lines'])
+    io = tprog.run_program(_split(c)[0])
     bad = _pairs_ok(c, io)
     if 'rejected' in [o for l, o in zip(c['lines'], io) if l.startswith(('t op', 't sop', 't bw'))]:
         return {'key': {'id': c['id'], 'cls': 'rejected'}, 'case': {k: v for k, v in c.items() if k != 'desc'}, 'what': f"identity {c['id']}: one side raised"}
+    if not bad and 'mfrel' in c:
+        bad = _mf_oracle(c)
     if not bad and 'module' in c:
         try:
             bad = _module_side(c, io)
